@@ -34,8 +34,11 @@ def codes(ctx, rnd):
            ('nofinalnl', b'x=1 y=2'), ('highbytes', b'print("\x80\x99\xff")\n' * 4)]
     line = b'function f%d() return 12345 end\n'
     out.append(('big-compressible', b''.join(line % (i % 7) for i in range(600 if ctx.quick else 2100))))
-    for n in ((0x3d00, 0x3d01) if ctx.quick else (0x3cfe, 0x3cff, 0x3d00, 0x3d01, 0x3d02, 0x3e00, 0x5000)):
+    for n in ((0x3cff, 0x3d00, 0x3d01) if ctx.quick else (0x3cfe, 0x3cff, 0x3d00, 0x3d01, 0x3d02, 0x3e00, 0x5000)):
         out.append(('incompressible-%x' % n, incompressible(rnd, n)))
+        if n in (0x3cff, 0x3d00):
+            # the same sizes without a final newline (a reader that loses the last byte must not hide behind the newline rule)
+            out.append(('incompressible-nonl-%x' % n, incompressible(rnd, n)[:-1] + b'q'))
     if not ctx.quick:
         for k in range(30):
             out.append(('rand%d' % k, incompressible(rnd, rnd.randrange(4, 400)) + b'x=%d\n' % k * rnd.randrange(0, 30)))
